@@ -218,6 +218,29 @@ Definition d_clear (s : dbook) (p : Z) : dbook :=
 
 Definition d_peers (s : dbook) : list Z := map dp (d_store s).
 
+(* supersededSignedAddrs + deleteAddrs: drop the addresses of the previous record that the
+   new one no longer lists (transport addresses compared), except connected ones *)
+Definition d_supersede (s : dbook) (p : Z) (prev : option arec) (new : list Z) : dbook :=
+  match prev with
+  | None => s
+  | Some c =>
+      let '(s3, pr3, _) := load s p true false in
+      let superseded :=
+        filter (fun a =>
+                  negb (zmem a new) &&
+                  negb (existsb (fun e => (da e =? a) && conn (dttl e)) (daddrs pr3)))
+               (clean_addrs (raddrs c)) in
+      match superseded with
+      | [] => s3
+      | _ => d_deleteaddrs s3 p superseded
+      end
+  end.
+
+(* storeSignedPeerRecord *)
+Definition d_store_signed (s : dbook) (p : Z) (rec : arec) : dbook :=
+  let '(s6, pr6, inc) := load s p true false in
+  flush s6 (mkDR p (daddrs pr6) (Some rec) true) inc.
+
 Definition d_consume (s : dbook) (p seq id : Z) (addrs : list raw) (ttl : Z) : dbook * Z :=
   (* latestPeerRecordSeq *)
   let '(s1, pr, _) := load s p true false in
@@ -228,27 +251,10 @@ Definition d_consume (s : dbook) (p seq id : Z) (addrs : list raw) (ttl : Z) : d
   if seq <? latest then (s1, 0)
   else
     let new := clean_addrs addrs in
-    (* supersededSignedAddrs *)
     let '(s2, prev) := d_getrec_full s1 p in
-    let s4 :=
-      match prev with
-      | None => s2
-      | Some c =>
-          let '(s3, pr3, _) := load s2 p true false in
-          let superseded :=
-            filter (fun a =>
-                      negb (zmem a new) &&
-                      negb (existsb (fun e => (da e =? a) && conn (dttl e)) (daddrs pr3)))
-                   (clean_addrs (raddrs c)) in
-          match superseded with
-          | [] => s3
-          | _ => d_deleteaddrs s3 p superseded
-          end
-      end in
+    let s4 := d_supersede s2 p prev new in
     let s5 := d_setaddrs s4 p new ttl TExtend in
-    (* storeSignedPeerRecord *)
-    let '(s6, pr6, inc) := load s5 p true false in
-    (flush s6 (mkDR p (daddrs pr6) (Some (mkR p seq id addrs)) true) inc, 1).
+    (d_store_signed s5 p (mkR p seq id addrs), 1).
 
 (* ---- GC ------------------------------------------------------------------ *)
 Definition set_keys (s : dbook) k w := mkDB (d_now s) (d_store s) (d_cache s) (d_cached s) (d_look s) k w.
@@ -267,17 +273,24 @@ Definition put_key (k : Z * Z) (l : list (Z * Z)) : list (Z * Z) :=
   if existsb (key_eqb k) l then l else l ++ [k].
 Definition del_key (k : Z * Z) (l : list (Z * Z)) : list (Z * Z) := filter (fun x => negb (key_eqb k x)) l.
 
-(* populateLookahead *)
+(* populateLookahead: for every key of the datastore, the cached record if there is
+   one, else the stored one; a GC key when its first entry expires within the window *)
 Definition d_populate (s : dbook) : dbook :=
   let until := unix (d_now s + d_look s) in
   let keys :=
-    fold_left (fun ks (r : drec) =>
-                 let rec' := match find_dr (dp r) (d_cache s) with Some c => c | None => r end in
-                 match daddrs rec' with
-                 | e :: _ => if dexp e <=? until then put_key (dexp e, dp r) ks else ks
-                 | [] => ks
+    fold_left (fun ks p =>
+                 let rec' := match find_dr p (d_cache s) with
+                             | Some c => Some c
+                             | None => find_dr p (d_store s)
+                             end in
+                 match rec' with
+                 | Some r => match daddrs r with
+                             | e :: _ => if dexp e <=? until then put_key (dexp e, p) ks else ks
+                             | [] => ks
+                             end
+                 | None => ks
                  end)
-              (d_store s) (d_keys s) in
+              (map dp (d_store s)) (d_keys s) in
   set_keys s keys until.
 
 (* purgeLookahead: visit the GC keys whose timestamp is <= now *)
